@@ -26,7 +26,31 @@ def load_rules(prop):
 def run_rules(mod, repo, prop, tier):
     ctx = report.Ctx(repo, prop, tier)
     mod.run(ctx)
+    new_guard_rule(ctx, prop)
     return ctx
+
+
+def new_guard_rule(ctx, prop):
+    """Rnnz (generic, differential): in a function the property's rules are anchored in, a condition that the confirmed function does not test
+    at all now decides whether statements run or whether the function / loop iteration is left early -- the shape of a "fast path" or a
+    "nothing to do here" shortcut, which makes a for-all-inputs property depend on a new input class.  Validation (an `if` that only raises)
+    is not reported; a rearranged condition of the confirmed function is not new.  Subject to the alignment gate like every other rule."""
+    rid = f"R{prop[1:]}z"
+    guards = getattr(ctx.repo, "new_guards", None) or {}
+    anchored = set()
+    for o in ctx.obs:
+        anchored.add(o.construct.split("->")[0])
+    ctx.rule(rid, "no condition that the confirmed function does not test decides, in an anchor function, whether work is done or skipped (generic differential rule)", kind="N")
+    n = 0
+    for q, gs in sorted(guards.items()):
+        q0 = q.split("#")[0]
+        if not any(c == q0 or c.startswith(q0 + ".") or c.startswith(q0 + "->") for c in anchored):
+            continue
+        for test, what in gs:
+            n += 1
+            ctx.bad(rid, q0, "every input takes the confirmed paths through this function: no new condition skips or shortcuts work", f"new condition `{test}` {what}",
+                    key_detail=f"new guard {test[:60]}")
+    return n
 
 
 def analysis_problems(ctx):
